@@ -309,6 +309,10 @@ def judge(trace, rec):
             seen = rec["nlines"] + rec["neof"]
             if ln is not None and not (0 <= ln <= seen):
                 out.append(_v("lineno_out_of_range", f"LoadError lineno {ln} but only {seen} lines were pulled from the file", trace))
+            elif ln is not None and rec["lit"] is not None and rec["nopen"] == 1 and ln != rec["lit"][0]:
+                # every LoadError in iodata takes its line number from the LineIterator: it must be the
+                # iterator's position when the error was raised (nothing is read afterwards)
+                out.append(_v("lineno_mismatch", f"LoadError reports line {ln} but the reader stood at line {rec['lit'][0]}", trace))
         else:
             cause = type(exc.__cause__).__name__ if exc.__cause__ is not None else None
             out.append(_v("wrong_exception", f"{et} escaped from {api}: {str(exc)[:160]}", trace, f"{et}/{cause}"))
